@@ -387,7 +387,7 @@ def best_class(names: tuple):
     return _BEST_CLASSES[names]
 
 
-def real_best(keys, cands):
+def real_best(keys, cands, config=None):
     """cands: [{id, local_names, attempt}], attempt = None (the attempt raises) or the score in half points"""
     from xsdata.exceptions import ParserError
     from xsdata.formats.dataclass.context import XmlContext
@@ -415,7 +415,9 @@ def real_best(keys, cands):
     try:
         data = {k: "v" for k in keys}
         try:
-            obj = DictDecoder(context=XmlContext()).bind_best_dataclass(data, classes)
+            from xsdata.formats.dataclass.parsers.config import ParserConfig
+
+            obj = DictDecoder(context=XmlContext(), config=ParserConfig(**(config or {}))).bind_best_dataclass(data, classes)
         except ParserError:
             return {"err": "ParserError"}
         except Exception as e:  # noqa: BLE001
